@@ -101,6 +101,17 @@ theorem C12_prefix_script (T n : Int) (evs : List Event) (H : Int) (hT : 0 < T) 
   obtain ⟨m, h1, h2, _⟩ := C12_prefix T n obs H hT
   exact ⟨m, h1, h2⟩
 
+/-- **C12 (schedule) for the script-level model**: for a script that injects
+only rejected / dropped datagrams (at any instants, applied at quiescence or
+racing, in bursts or not) EVERY result the driver can print is the full
+schedule followed by the no-response error. -/
+theorem C12_times_script (T n : Int) (evs : List Event) (H : Int) (hT : 0 < T) (hn : 0 ≤ n)
+    (hq : ∀ e ∈ evs, e.kind = .irr ∨ e.kind = .rej) (hH : T * (2 ^ n.toNat - 1) ≤ H) (r : Result)
+    (hr : r ∈ runCall T n evs H) :
+    r = ⟨(List.range n.toNat).map (fun k => T * (2 ^ k - 1)), some (T * (2 ^ n.toNat - 1), .noResp)⟩ := by
+  obtain ⟨obs, hobs, rfl⟩ := runCall_quiet_sound T n evs H hq r hr
+  exact times_of_quiet hT hn obs H hobs hH
+
 /-! Non-vacuity: concrete runs (evaluated by the kernel). -/
 
 /-- T = 1000, 3 tries, a rejected datagram every 300 ns (also exactly on the
